@@ -151,7 +151,7 @@ func genC18(r *Rng, tier string, emit func(Case)) {
 	e := func(op, cls string, args ...string) { emit(Case{op, cls, args}) }
 	hashes := []string{"00", "01", "ff", "f01", "f02", "l01", "l02", "m01", "n01", "f80", "l80"}
 	idxs := []string{"0", "1", "4294967295"}
-	vals := []string{"0", "1", "2100000000000000", "-1", "5"}
+	vals := []string{"0", "1", "2100000000000000", "-1", "5", "9007199254740992", "9007199254740993", "9223372036854775806", "9223372036854775807"}
 	scripts := []string{"-", "00", "0000", "01", "0001", "ff", "00ff"}
 	// all permutations of small key sets
 	maxk := 4
@@ -408,6 +408,21 @@ func genC19(r *Rng, tier string, emit func(Case)) {
 				i64s(tv+int64(r.Pick(-1, 0, 1))), strings.Join(coins, ","))
 		}
 	}
+	// small scope for the min-priority selector with a minimum change at or above the target (the "equals the target
+	// or exceeds it by the minimum change" rule is then decided by equality alone)
+	nb := 2500
+	if tier == "thorough" {
+		nb = 40000
+	}
+	for i := 0; i < nb; i++ {
+		k := 2 + r.Intn(4)
+		coins := []string{}
+		for j := 0; j < k; j++ {
+			coins = append(coins, itoa(1+r.Intn(6))+":"+itoa(r.Intn(5)))
+		}
+		tg := 1 + r.Intn(8)
+		e("sel", "bigchange-small", "minpriority", itoa(1+r.Intn(6)), itoa(tg+r.Intn(7)-1), itoa(r.Intn(9)), itoa(tg), strings.Join(coins, ","))
+	}
 	n := 3000
 	if tier == "thorough" {
 		n = 60000
@@ -442,6 +457,10 @@ func genC19(r *Rng, tier string, emit func(Case)) {
 			tg = p + r.Pick(-1, 0, 0, 1)
 		}
 		e("sel", "rand", sels[r.Intn(4)], itoa(r.Intn(14)), itoa(r.Intn(4)), itoa(r.Intn(13)), itoa(tg), joinOr(coins, ","))
+		if i%5 == 0 {
+			// a minimum change larger than the target (and around the coin values)
+			e("sel", "bigchange", sels[r.Intn(4)], itoa(r.Intn(14)), itoa(tg+r.Pick(0, 1, 2, 5)), itoa(r.Intn(13)), itoa(1+r.Intn(tg+1)), joinOr(coins, ","))
+		}
 		if i%6 == 0 {
 			ops := []string{}
 			for j := 0; j < r.Intn(20); j++ {
